@@ -1364,6 +1364,9 @@ type vC05StepObs struct {
 	chW, chM   *cache.VC05Chase
 	chMStable  bool
 	rawW, rawM []byte
+	// admission-time verdict (CaseVerdict): the exact entry's view right before the packet on each server and,
+	// on the decoded-path server, right after it
+	vdW, vdM, vdMPost *cache.VC05Verdict
 }
 
 func (vs *vC05Server) cache() *cache.Cache {
@@ -1510,6 +1513,98 @@ func vC05ChaseCase(st vC05Step, ob vC05StepObs) (string, map[string]any) {
 	return fmt.Sprintf("CaseChase %d %s %d %s %s %s %s %s %s", ref.Qtype, bs[ref.CD], qname, wview, segs, comp, wrep, mview, mrep), desc
 }
 
+// vC05VerdictCase renders one CaseVerdict term, or "" when the wire-path server held no exact entry.  key is
+// what makes two cases the same for the per-run de-duplication; withBytes adds the stored packed body.
+func vC05VerdictCase(st vC05Step, ob vC05StepObs, withBytes bool) (string, string, map[string]any) {
+	v := ob.vdW
+	if v == nil || !v.Live {
+		return "", "", nil
+	}
+	nrec := len(v.Full.An) + len(v.Full.Ns) + len(v.Full.Ar)
+	if nrec > 16 {
+		return "", "", nil // oversized answers: the text would cost more than the case tells
+	}
+	ids := map[string]int{}
+	id := func(n string) int {
+		if n == "" {
+			return 0
+		}
+		if x, ok := ids[n]; ok {
+			return x
+		}
+		ids[n] = len(ids) + 1
+		return ids[n]
+	}
+	qname := id(v.Name)
+	bs := map[bool]string{true: "true", false: "false"}
+	recs := func(rs []cache.VC05Rec) string {
+		if len(rs) == 0 {
+			return "[]"
+		}
+		var p []string
+		for _, r := range rs {
+			p = append(p, fmt.Sprintf("mk_rrec N %d %d %d 0", r.Type, id(r.Target), r.Rest))
+		}
+		return "[" + strings.Join(p, "; ") + "]"
+	}
+	body := func(b cache.VC05Body) string {
+		return fmt.Sprintf("(mk_vbody N %d %s %s %s %s)", b.Rcode, bs[b.AD], recs(b.An), recs(b.Ns), recs(b.Ar))
+	}
+	flags := func(f cache.VC05Flags) string {
+		return fmt.Sprintf("(mk_vflags %s %s %s)", bs[f.Eligible], bs[f.DNSSEC], bs[f.ChaseSafe])
+	}
+	stripped := "None"
+	if v.HasStripped {
+		stripped = fmt.Sprintf("(Some (%s, %s))", body(v.Stripped), flags(v.StrippedFlags))
+	}
+	reply := func(raw []byte) string {
+		m := new(dns.Msg)
+		if len(raw) == 0 || m.Unpack(raw) != nil || m.Truncated {
+			return "None"
+		}
+		b := cache.VC05Body{Rcode: m.Rcode, AD: m.AuthenticatedData}
+		for i, sec := range [][]dns.RR{m.Answer, m.Ns, m.Extra} {
+			for _, rr := range sec {
+				if rr.Header().Rrtype == dns.TypeOPT {
+					continue
+				}
+				r := cache.VC05RecOf(rr)
+				switch i {
+				case 0:
+					b.An = append(b.An, r)
+				case 1:
+					b.Ns = append(b.Ns, r)
+				default:
+					b.Ar = append(b.Ar, r)
+				}
+			}
+		}
+		return "(Some " + body(b) + ")"
+	}
+	do := vC05ClientDO(st.raw)
+	served := ob.route == "served"
+	wrep := "None"
+	if served {
+		wrep = reply(ob.rawW)
+	}
+	// the decoded-path server's reply is comparable when it held the same entry before and after the packet
+	mrep := "None"
+	if ob.vdM != nil && ob.vdMPost != nil && ob.vdM.Live && ob.vdMPost.Live && reflect.DeepEqual(ob.vdM.Full, v.Full) &&
+		reflect.DeepEqual(ob.vdM.Full, ob.vdMPost.Full) && ob.vdM.FullFlags == v.FullFlags {
+		mrep = reply(ob.rawM)
+	}
+	bytesS := "[]"
+	if withBytes {
+		bytesS = vC05Bytes(v.Wire)
+	}
+	term := fmt.Sprintf("CaseVerdict %d %s %s %d %s %s %s %d %s %s %s %s %s %s", v.Qtype, bs[do], bs[v.CD], qname, body(v.Full), flags(v.FullFlags), stripped,
+		v.Choice, flags(v.ChoiceFlags), bs[v.InfoDNSSEC], bytesS, bs[served], wrep, mrep)
+	key := fmt.Sprintf("%s/%d do=%v cd=%v %s choice=%d served=%v w=%v m=%v %d", v.Name, v.Qtype, do, v.CD, flags(v.FullFlags), v.Choice, served, wrep != "None", mrep != "None", vC05Hash(body(v.Full)))
+	desc := map[string]any{"name": v.Name, "qtype": v.Qtype, "do": do, "route": ob.route, "tags": st.tag, "choice": v.Choice, "raw": hex.EncodeToString(st.raw),
+		"flags": flags(v.FullFlags), "stripped": v.HasStripped, "wire_reply": wrep != "None", "msg_reply": mrep != "None"}
+	return term, key, desc
+}
+
 // the cache's byte-path outcome counters, read from the default registry (coverage only)
 func vC05WireOutcomes() map[string]float64 {
 	metric.FlushAll()
@@ -1596,6 +1691,7 @@ func vC05RunScenario(t vC05Toggles, hostsPath string, steps []vC05Step) []vC05St
 			chase := t.clientRate == 0 && t.entryRate == 0
 			if chase {
 				out[i].chW = cache.VC05ChaseView(sw.cache(), st.raw, vC05ClientDO(st.raw))
+				out[i].vdW = cache.VC05VerdictView(sw.cache(), st.raw, vC05ClientDO(st.raw))
 			}
 			job := wjob
 			job.rearm(st.ip, i%3 != 0)
@@ -1651,8 +1747,13 @@ func vC05RunScenario(t vC05Toggles, hostsPath string, steps []vC05Step) []vC05St
 		chaseM := !st.probe && t.clientRate == 0 && t.entryRate == 0
 		if chaseM {
 			out[i].chM = cache.VC05ChaseView(sm.cache(), st.raw, vC05ClientDO(st.raw))
+			out[i].vdM = cache.VC05VerdictView(sm.cache(), st.raw, vC05ClientDO(st.raw))
 		}
 		out[i].m = viaMsg(sm, st)
+		if out[i].vdM != nil {
+			out[i].vdMPost = cache.VC05VerdictView(sm.cache(), st.raw, vC05ClientDO(st.raw))
+			out[i].rawM = vC05LastMsgReply
+		}
 		if out[i].chM != nil {
 			post := cache.VC05ChaseView(sm.cache(), st.raw, vC05ClientDO(st.raw))
 			out[i].chMStable = post != nil && reflect.DeepEqual(out[i].chM.Hops, post.Hops)
@@ -2134,6 +2235,12 @@ func TestVerifC05Differential(t *testing.T) {
 		}
 	}
 	nScripted := len(scriptedSteps)
+	// CaseVerdict budget: distinct (entry, question, DO, choice, route) observations only
+	verdictLeft, verdictBytesLeft := 260, 40
+	if os.Getenv("VERIF_TIER") == "thorough" {
+		verdictLeft, verdictBytesLeft = 3000, 300
+	}
+	verdictSeen, verdictBytesSeen := map[string]bool{}, map[string]bool{}
 	for budget > 0 {
 		scen++
 		tg := vC05Toggles{
@@ -2377,6 +2484,18 @@ func TestVerifC05Differential(t *testing.T) {
 			emit(rec)
 			if cq, cdesc := vC05ChaseCase(st, ob); cq != "" && !unsettled && !(firstBad >= 0 && i > firstBad) {
 				emit(map[string]any{"k": "chase/" + ob.route, "coq": cq, "desc": cdesc, "nontrivial": true, "go_fail": ""})
+			}
+			if !st.probe && !unsettled && !(firstBad >= 0 && i > firstBad) && verdictLeft > 0 {
+				withBytes := ob.vdW != nil && len(ob.vdW.Wire) <= 260 && verdictBytesLeft > 0 && !verdictBytesSeen[ob.vdW.Name+"/"+strconv.Itoa(int(ob.vdW.Qtype))]
+				if vq, key, vdesc := vC05VerdictCase(st, ob, withBytes); vq != "" && !verdictSeen[key] {
+					verdictSeen[key] = true
+					verdictLeft--
+					if withBytes {
+						verdictBytesLeft--
+						verdictBytesSeen[ob.vdW.Name+"/"+strconv.Itoa(int(ob.vdW.Qtype))] = true
+					}
+					emit(map[string]any{"k": fmt.Sprintf("verdict/choice%d/%s", ob.vdW.Choice, ob.route), "coq": vq, "desc": vdesc, "nontrivial": true, "go_fail": ""})
+				}
 			}
 		}
 		budget -= nsteps
